@@ -393,3 +393,34 @@ def gen_flatten_lookup(rnd):
         ro[t] = q
     return Spec(decl, [e], rank_order=ro, partitioning={"Z": parts}, loop_order={"Z": lo},
                 tags=tags)
+
+
+def gen_two_dynamic_flattens(rnd):
+    """One tensor with TWO dynamic flattenings, each enabled by its own occupancy split:
+        Z[x, y] = A[k, x, m, y] * B[k, m];  K: occupancy(A.a), M: occupancy(A.b),
+        (K0, X): flatten(), (M0, Y): flatten();  loop order [K1, K0X, M1, M0Y] (and others)."""
+    from .einsum import _acc
+    from ..spec import Term, Einsum as E
+    k, x, m, y = rnd.sample(["K", "X", "M", "Y", "J", "N", "P", "Q"], 4)
+    a_ranks = [k, x, m, y]
+    if rnd.random() < 0.3:
+        a_ranks = [m, y, k, x] if rnd.random() < 0.5 else [k, m, x, y]
+    b_ranks = rnd.choice([[k, m], [m, k], [k], [m]])
+    out = rnd.choice([[x, y], [y, x], [x], [y]])
+    decl = {"A": a_ranks, "B": b_ranks, "Z": out}
+    facs = [_acc("A", a_ranks), _acc("B", b_ranks)]
+    rnd.shuffle(facs)
+    e = E(_acc("Z", out), [Term("times", facs)])
+    parts = {k: ["uniform_occupancy(A.%d)" % rnd.randint(2, 5)],
+             m: ["uniform_occupancy(A.%d)" % rnd.randint(2, 5)],
+             "(%s0, %s)" % (k, x): ["flatten()"],
+             "(%s0, %s)" % (m, y): ["flatten()"]}
+    items = list(parts.items())
+    rnd.shuffle(items)
+    parts = dict(items)
+    g1 = [k + "1", k + "0" + x]
+    g2 = [m + "1", m + "0" + y]
+    lo = rnd.choice([g1 + g2, g2 + g1, [g1[0], g2[0], g1[1], g2[1]], [g1[0], g2[0], g2[1], g1[1]],
+                     g1 + g2])
+    return Spec(decl, [e], partitioning={"Z": parts}, loop_order={"Z": lo},
+                tags=["flatten", "dynamic-flatten", "two-dynamic-flattens"])
